@@ -48,6 +48,10 @@ void TruncatedExponentialDiscreteDistribution::fireParameterChanged(const Parame
 
 void TruncatedExponentialDiscreteDistribution::restrictToConstraint(const ConstraintInterface& c)
 {
+  // The truncation point must stay inside the domain: refuse before anything is modified.
+  if (!c.isCorrect(getParameterValue("tp")))
+    throw ConstraintException("TruncatedExponentialDiscreteDistribution::restrictToConstraint: truncation point outside the constraint", &getParameter_("tp"), getParameterValue("tp"));
+
   AbstractDiscreteDistribution::restrictToConstraint(c);
   getParameter_("tp").setConstraint(intMinMax_);
 }
